@@ -236,6 +236,28 @@ Qed.
 Lemma sort_rows_perm rows : Permutation (sort_rows rows) rows.
 Proof. apply isort_perm. Qed.
 
+(* a file without records: a table without rows, paired exactly when a normal was chosen --
+   whatever filters are asked for (the columns are never lost) *)
+Lemma read_empty_file h ssel nsel md sr ss p :
+  choose_samples h ssel nsel = Ok p ->
+  read_vcf h [] ssel nsel md sr ss = Ok {| t_paired := truthy (snd p); t_rows := [] |}.
+Proof.
+  intros Hc. unfold read_vcf. rewrite Hc. destruct p as [sid nid]. cbn [all_rows snd].
+  assert (E : somatic_filter ss (depth_filter md []) = []).
+  { unfold somatic_filter, depth_filter. destruct md as [m|]; [destruct (m =? 0)|]; destruct ss; reflexivity. }
+  rewrite E. reflexivity.
+Qed.
+
+(* the table has the normal's columns exactly when the chosen pair has a normal *)
+Lemma read_paired_flag h recs ssel nsel md sr ss t :
+  read_vcf h recs ssel nsel md sr ss = Ok t ->
+  exists p, choose_samples h ssel nsel = Ok p /\ t_paired t = truthy (snd p).
+Proof.
+  unfold read_vcf. destruct (choose_samples h ssel nsel) as [[sid nid]|e]; [|discriminate].
+  destruct (all_rows _ _ sr recs) as [rows|]; [|discriminate].
+  intros H. injection H as <-. exists (sid, nid). split; reflexivity.
+Qed.
+
 Lemma depth_filter_eq md rows :
   depth_filter md rows =
   filter (fun r => match md with
@@ -449,6 +471,35 @@ Proof.
   rewrite E, M. reflexivity.
 Qed.
 
+(* a requested tumour or normal that is not in the file is refused *)
+Lemma choose_unknown_sample h s nsel :
+  s <> ""%string -> ~ In s (h_samples h) -> exists e, choose_samples h (SelName s) nsel = Fail e.
+Proof.
+  intros Hne Hnot. destruct (choose_unknown h s nsel Hne Hnot) as [H|H]; [eexists; exact H | exact H].
+Qed.
+
+Lemma choose_unknown_normal h ssel n :
+  n <> ""%string -> ~ In n (h_samples h) -> exists e, choose_samples h ssel (SelName n) = Fail e.
+Proof.
+  intros Hne Hnot. unfold choose_samples.
+  destruct (resolve (h_samples h) ssel) as [sid|e]; [|eexists; reflexivity].
+  cbn [resolve].
+  assert (E : String.eqb n "" = false) by now apply String.eqb_neq.
+  assert (M : mem_string n (h_samples h) = false).
+  { destruct (mem_string n (h_samples h)) eqn:M; [|reflexivity]. apply mem_string_in in M. contradiction. }
+  cbn [truthy]. rewrite E, M. cbn [negb andb]. rewrite orb_true_r. eexists. reflexivity.
+Qed.
+
+(* an index outside -n .. n-1 is refused *)
+Lemma choose_index_out_of_range h i nsel :
+  i < - Z.of_nat (length (h_samples h)) \/ Z.of_nat (length (h_samples h)) <= i ->
+  choose_samples h (SelIdx i) nsel = Fail IndexError.
+Proof.
+  intros Hi. unfold choose_samples, resolve.
+  assert (E : (- Z.of_nat (length (h_samples h)) <=? i) && (i <? Z.of_nat (length (h_samples h))) = false) by lia.
+  rewrite E. reflexivity.
+Qed.
+
 Lemma resolve_index samples i s :
   0 <= i -> nth_error samples (Z.to_nat i) = Some s -> resolve samples (SelIdx i) = resolve samples (SelName s).
 Proof.
@@ -475,6 +526,14 @@ Lemma choose_index h i s nsel :
   choose_samples h (SelIdx i) nsel = choose_samples h (SelName s) nsel.
 Proof.
   intros Hi Hn. unfold choose_samples. now rewrite (resolve_index _ _ _ Hi Hn).
+Qed.
+
+Lemma choose_negative_index h i s nsel :
+  - Z.of_nat (length (h_samples h)) <= i < 0 ->
+  nth_error (h_samples h) (Z.to_nat (i + Z.of_nat (length (h_samples h)))) = Some s ->
+  choose_samples h (SelIdx i) nsel = choose_samples h (SelName s) nsel.
+Proof.
+  intros Hi Hn. unfold choose_samples. now rewrite (resolve_negative_index _ _ _ Hi Hn).
 Qed.
 
 (* -- the decision table on candidate_pairs -- *)
